@@ -959,3 +959,42 @@ Example ex_trace_nonempty :
   length (snd (run_ops ex_graph (is_ancestor ex_graph) (seek_spec ex_graph) ex_state ex_ops)) = 3%nat.
 Proof. vm_compute. reflexivity. Qed.
 
+
+(* ------------------------------------------------------- pull creates the branch *)
+
+Lemma rget_none_rlogs_nil s n : rget s n = None -> rlogs s n = [].
+Proof.
+  induction s as [|[k [v lg]] s IH]; simpl; [reflexivity|].
+  destruct (beqb k n); [discriminate|exact IH].
+Qed.
+
+(** the merge heads pullSingleRepo extracts after the fetch, for a branch that does not exist *)
+Definition new_branch_heads (s1 : rstore) (specs : list refspec) : list (name * commit) :=
+  flat_map (fun sp : refspec =>
+              match rget s1 (rs_dst sp) with
+              | Some c => if oeqb (Some c) None then [] else [(rs_dst sp, c)]
+              | None => []
+              end) specs.
+
+(** a successful first pull of a branch creates it: the branch does not exist before nor after the fetch half
+    (wherever the NAME happens to resolve - e.g. to an already present remote-tracking ref), exactly one refspec
+    destination holds a commit: heads/BRANCH then holds that commit, logged as created by the pull *)
+Theorem pull_creates_branch g ia sk st branch specs gf mode m hn hc c :
+  let rf := fetch_step g ia st specs gf in
+  r_outcome rf = 0 ->
+  rget (lrefs st) (s_heads ++ branch) = None ->
+  rget (lrefs (r_state rf)) (s_heads ++ branch) = None ->
+  new_branch_heads (lrefs (r_state rf)) specs = [(hn, hc)] ->
+  resolve_commitish (lrefs (r_state rf)) hn = Some c ->
+  let r := pull_step g ia sk st branch specs gf mode m in
+  r_outcome r = 0 /\
+  rget (lrefs (r_state r)) (s_heads ++ branch) = Some c /\
+  rlogs (lrefs (r_state r)) (s_heads ++ branch) = [mk_log None c ACT_PULL].
+Proof.
+  intros rf Hout Hb0 Hb1 Hh Hr. unfold pull_step, pull_step_gen. cbv zeta. fold rf.
+  rewrite Hout. rewrite Hb0, Hb1. cbn [N.eqb negb is_some andb].
+  unfold new_branch_heads in Hh. rewrite Hh. rewrite Hr. cbn [r_outcome r_state lrefs].
+  split; [reflexivity|]. split; [apply rset_log_get_same|].
+  rewrite rset_log_logs_same. rewrite Hb1.
+  rewrite (rget_none_rlogs_nil _ _ Hb1). reflexivity.
+Qed.
